@@ -71,7 +71,11 @@ def user_names(prog):
             k = st['k']
             if k == 'def': add(st['n'])
             elif k == 'deftup':
-                for n in st['ns']: add(n)
+                def flat(ns):
+                    for n in ns:
+                        if isinstance(n, list): flat(n)
+                        else: add(n)
+                flat(st['ns'])
             elif k in ('for', 'forin'): add(st['v'])
             elif k == 'match':
                 for pat, _ in st['arms']:
@@ -171,7 +175,9 @@ def judge(w, prog, ren, part, origin, base_cache, label):
     if 'lines' not in base:
         base['lines'] = behave.observe(base['py'][0])[:2]
     obs = behave.observe(res['py'][0])
-    if obs[2]['status'] == 'ok' and (obs[0], obs[1]) != tuple(base['lines']):
+    # an uncaught user exception carries the (renamed) name of its class
+    want_beh = (base['lines'][0], ren.get(base['lines'][1], base['lines'][1]))
+    if obs[2]['status'] == 'ok' and (obs[0], obs[1]) != want_beh:
         part.violation(f'behaviour-changes:{tag}', dict(wit, base_out=base['lines'], renamed_out=[obs[0][:8], obs[1], obs[2]['detail']]))
         return
     part.held((label[0], label[1] if label[1] in POOL else 'ordinary'))
@@ -204,7 +210,19 @@ def template():
             HANDLE(CALL('risky', V('hi')), [('Oops', 'problem', [P(L('caught'))])]),
             HANDLE(CALL('risky', L(1)), [('Oops', 'problem', [VAL(B('-', L(0), L(1)))])], bind='outcome'), P(V('outcome')),
             P(FS('seed=', V('seed'), ' hi=', V('hi')))]
-    return {'classes': [oops, box], 'funs': [bump, risky], 'main': main}
+    # an interface below a CONCRETE user class, implemented by a class (the generator adds ABC / abstractmethod for the interface)
+    ground = {'name': 'Ground', 'args': [], 'parents': [], 'members': [{'k': 'field', 'n': 'level', 't': 'Int', 'mut': True, 'e': L(1)}]}
+    shape = {'name': 'Shape', 'abstract': True, 'args': [], 'parents': [{'name': 'Ground'}],
+             'members': [{'k': 'method', 'abstract': True, 'name': 'area', 'self': 'self', 'params': [], 'ret': 'Int', 'raises': []}]}
+    square = {'name': 'Square', 'args': [], 'parents': [{'name': 'Shape'}],
+              'members': [{'k': 'field', 'n': 'side', 't': 'Int', 'mut': True, 'e': L(2)},
+                          {'k': 'method', 'name': 'area', 'self': 'self', 'params': [], 'ret': 'Int', 'raises': [],
+                           'body': [VAL(B('*', {'k': 'fld', 'o': V('self', 'Square'), 'f': 'side', 't': 'Int'}, {'k': 'fld', 'o': V('self', 'Square'), 'f': 'side', 't': 'Int'}))]}]}
+    plain = {'name': 'Named', 'abstract': True, 'args': [], 'parents': [],
+             'members': [{'k': 'method', 'abstract': True, 'name': 'label', 'self': 'self', 'params': [], 'ret': 'Str', 'raises': []}]}
+    main += [D('tile', {'k': 'new', 'c': 'Square', 'args': [], 't': 'Square'}, 'Square'), P({'k': 'mcall', 'o': V('tile', 'Square'), 'm': 'area', 'args': [], 't': 'Int'}),
+             P({'k': 'fld', 'o': V('tile', 'Square'), 'f': 'level', 't': 'Int'})]
+    return {'classes': [oops, box, ground, shape, square, plain], 'funs': [bump, risky], 'main': main}
 
 
 def shard(i, n, nprog, per_prog, half):
@@ -219,7 +237,7 @@ def shard(i, n, nprog, per_prog, half):
             k += 1
             if k % n != i or pool_name in names:
                 continue
-            if half and pool_name not in ('Optional', 'math', 'Union', 'size', '__x', 'value', 'init', 'super') and pi % 2 != common.SEED % 2:
+            if half and pool_name not in ('Optional', 'math', 'Union', 'size', '__x', 'value', 'init', 'super', 'ABC', 'abstractmethod') and pi % 2 != common.SEED % 2:
                 continue
             judge(w, tp, {nm: pool_name}, part, 'template', cache, (slot_kind(nm, tp), pool_name if pool_name in POOL else 'ordinary'))
             part.count('matrix-cells')
@@ -237,6 +255,8 @@ def shard(i, n, nprog, per_prog, half):
         r = rng(PROP, origin.split(':')[0], j)
         if prog is None:
             prog, _ = gen.generate(r, {'size': 1})
+            if j % 3 == 1:
+                prog['layout'] = j
         names = user_names(prog)
         if not names:
             continue
